@@ -2,8 +2,8 @@
 # regression over every kept seeded change: apply, run the check of the property it breaks, undo.  Prints one line per seed.
 for d in /verif/seeded/*/; do
   id=$(basename $d)
-  python3 -c "import json,sys;m=json.load(open('$d/meta.json'));sys.exit(0 if (m.get('obsolete') or m.get('outside_model')) else 1)" && { echo "$id: obsolete on HEAD (see meta.json), skipped"; continue; }
-  prop=$(python3 -c "import json;print(json.load(open('$d/meta.json'))['breaks_property'])")
+  python3 -c "import json,sys;m=json.load(open('$d/meta.json'));sys.exit(0 if (m.get('obsolete') or m.get('outside_model')) else 1)" && { echo "$id: obsolete or outside the stated model (see meta.json), skipped"; continue; }
+  prop=$(python3 -c "import json;m=json.load(open('$d/meta.json'));print(m.get('detected_under') or m['breaks_property'])")
   git -C /repo status --short | grep -q . && { echo "/repo not clean"; exit 2; }
   git -C /repo apply $d/patch.diff || { echo "$id: patch does not apply"; continue; }
   out=$(/verif/check $prop 2>&1); rc=$?
